@@ -95,6 +95,7 @@ func sigCheckOf(v ssa.Value, node ssa.Value) (cert ssa.Value, ok bool) {
 
 func runC10(c *Ctx) {
 	w := c.W
+	c10Extras(c)
 	pkg := "z/verifier"
 	add := w.Fn(fnGAddCert)
 	if add == nil {
